@@ -15,7 +15,7 @@ RULE = ("tie P (program capture): for every frame with (h+1)(w+1) <= 12 (thoroug
         "GRAPH_ACTIVE_VERTICES_CONNECTED node) and the two returned arrays (+ shapes) must equal those of the extracted "
         "post_crossable, token for token; the auxiliary graph (node count, edge list in insertion order) is compared "
         "separately; a malformed stream puts IntExpr / int / None entries in the arrays (TypeError on both sides).  "
-        "search: for every frame up to 2x2 plus 1x3, 0x4 (thorough: 3x1, 2x3, 3x2, 1x4, 4x1, 1x5, 0x6) and every subset "
+        "search: for every frame up to 2x2 plus 1x3, 3x1, 0x4 (thorough: 2x3, 3x2, 1x4, 4x1, 1x5, 0x6) and every subset "
         "of segments (frames with more than 12 (thorough 13) segments: every subset obeying the 0/1/2/4 rule + random "
         "others), satisfiability of the really posted non-primitive program (own z3 translation, pattern fixed) and "
         "the values forced on the two returned arrays vs an oracle written from the property text (segments as pairs "
@@ -437,9 +437,9 @@ class Session:
 # ------------------------------------------------------------------ search
 
 def search_frames(ctx):
-    quick = [(h, w) for h in range(0, 3) for w in range(0, 3)] + [(1, 3), (0, 4)]
+    quick = [(h, w) for h in range(0, 3) for w in range(0, 3)] + [(1, 3), (3, 1), (0, 4)]
     if ctx.thorough:
-        return quick + [(3, 1), (2, 3), (3, 2), (1, 4), (4, 1), (1, 5), (0, 6)]
+        return quick + [(2, 3), (3, 2), (1, 4), (4, 1), (1, 5), (0, 6)]
     return quick
 
 
@@ -557,7 +557,32 @@ def spec_vs_oracle(ctx):
                 ctx.corr("spec-vs-oracle", r, o, e)
 
 
-def search(ctx):
+class _Recorder:
+    """what a search worker reports back (same interface as the parts of vlib.Ctx the search uses)"""
+
+    def __init__(self, seed, thorough, deep):
+        import random
+        self.rng = random.Random(seed)
+        self.thorough, self.deep = thorough, deep
+        self.cases, self.viol = [], []
+
+    def prop_case(self, kind, inp, nontrivial=True):
+        self.cases.append((kind, inp))
+
+    def violation(self, key, what, detail):
+        if len(self.viol) < 40:
+            self.viol.append((key, what, detail))
+
+
+def _search_job(job):
+    (h, w, sc, prim, full, nrand, seed, thorough, deep) = job
+    rec = _Recorder(seed, thorough, deep)
+    search_one(rec, h, w, sc, prim, None if full else sampled_patterns(rec, h, w, nrand))
+    return rec.cases, rec.viol
+
+
+def search_jobs(ctx):
+    jobs = []
     for (h, w) in search_frames(ctx):
         nseg = (h + 1) * w + h * (w + 1)
         for sc in (False, True):
@@ -567,8 +592,30 @@ def search(ctx):
                     nrand = 3000 if (ctx.thorough or ctx.deep) else 500
                 else:
                     full = nseg <= (13 if ctx.thorough else 12)
-                    nrand = 20000 if ctx.thorough else 3000
-                search_one(ctx, h, w, sc, prim, None if full else sampled_patterns(ctx, h, w, nrand))
+                    nrand = 5000 if ctx.thorough else 3000
+                seed = ctx.rng.randrange(1 << 30)
+                jobs.append((h, w, sc, prim, full, nrand, seed, ctx.thorough, bool(getattr(ctx, "deep", False))))
+    return jobs
+
+
+def search(ctx):
+    import concurrent.futures
+    import os
+    jobs = search_jobs(ctx)
+    # biggest first, so that the pool stays busy
+    order = sorted(range(len(jobs)), key=lambda i: -((jobs[i][0] + 1) * jobs[i][1] + jobs[i][0] * (jobs[i][1] + 1)))
+    workers = max(1, min(6, (os.cpu_count() or 2) // 2))
+    results = {}
+    with concurrent.futures.ProcessPoolExecutor(max_workers=workers) as ex:
+        futs = {ex.submit(_search_job, jobs[i]): i for i in order}
+        for f in concurrent.futures.as_completed(futs):
+            results[futs[f]] = f.result()
+    for i in range(len(jobs)):           # merge in the deterministic job order
+        cases, viol = results[i]
+        for (kind, inp) in cases:
+            ctx.prop_case(kind, inp)
+        for (key, what, detail) in viol:
+            ctx.violation(key, what, detail)
 
 
 def replay(ctx, rp):
